@@ -126,6 +126,22 @@ theorem available_iff_capacity_modulo_wakeup (cfg : Cfg) (s : St) (g : Good cfg 
   · have := gw.2.1 h; omega
   · have := gw.2.2.2.2.1 h ht; omega
 
+/-- **Round robin skips exactly the workers that are not available** — in every reachable state of a fault-free
+history (all schedules, limits, 1..512 workers), at an iteration boundary: the next connection handed to
+`accept_one` goes to the FIRST worker marked available at or after the cursor, in cyclic order (`firstAvail`),
+and the cursor ends right behind that worker; with `available_iff_capacity_modulo_wakeup` "marked available"
+is "has spare capacity" up to a wake-up in flight, so a worker is passed over only while it is at its limit. -/
+theorem dispatch_goes_to_first_available (cfg : Cfg) (ok : CfgOk cfg) (kinds : List Kind) (ops : List Op)
+    (hff : ∀ op ∈ ops, op.faultFree) (c : Conn) (w fuel : Nat)
+    (hw : firstAvail cfg.nIdx (run cfg (init cfg kinds) ops).avail cfg.nIdx (run cfg (init cfg kinds) ops).next = some w) :
+    (acceptOne cfg (cfg.nIdx + fuel) (run cfg (init cfg kinds) ops) c).dispatched =
+      (run cfg (init cfg kinds) ops).dispatched ++ [(c, w)] ∧
+    (acceptOne cfg (cfg.nIdx + fuel) (run cfg (init cfg kinds) ops) c).next = (w + 1) % cfg.nIdx := by
+  have hinv := run_inv ok ops _ (init_inv cfg ok kinds) hff
+  have hs : (run cfg (init cfg kinds) ops).sched = [] := run_sched_nil cfg ops _ rfl
+  have hacc : AccInv cfg (run cfg (init cfg kinds) ops) := ⟨hinv.1, hinv.2, by unfold SchedOk; rw [hs]; intro ch h; cases h⟩
+  exact acceptOne_first_available ok cfg.nIdx fuel _ c w hacc (run_fault_none ok kinds ops) hw
+
 /-- **Round robin in every reachable state**: after ANY fault-free history (all schedules, limits, 1..512 workers),
 at an iteration boundary, if the `k ≤ W` cursor positions from `next` on are marked available then `k`
 connections handed to the accept loop back to back go to `next, next+1, …` — pairwise distinct workers.
@@ -166,5 +182,15 @@ example : (∀ op ∈ rrOps, op.faultFree) ∧ (run cfg3 (init cfg3 [.tcp]) rrOp
   intro j hj
   have : j = 0 ∨ j = 1 ∨ j = 2 := by omega
   rcases this with rfl | rfl | rfl <;> decide
+-- `dispatch_goes_to_first_available`: workers 0 and 1 saturated (limit 2), worker 2 has room, the cursor stands
+-- at 0: the first available worker from the cursor is 2, and that is where the next connection goes
+def skipOps : List Op :=
+  [.env (.connect 0), .env (.connect 0), .env (.connect 0), .env (.connect 0), .env (.connect 0), .env (.connect 0),
+   .poll [.listener 0, .waker] [], .env (.recv 2), .env (.finishNow 2 none), .poll [.waker] []]
+example : let S := run cfg3 (init cfg3 [.tcp]) skipOps
+    S.next = 0 ∧ S.avail 0 = false ∧ S.avail 1 = false ∧ S.avail 2 = true ∧
+    firstAvail cfg3.nIdx S.avail cfg3.nIdx S.next = some 2 ∧
+    (acceptOne cfg3 4 S (9, 0)).dispatched.getLast? = some ((9, 0), 2) ∧ (acceptOne cfg3 4 S (9, 0)).next = 0 := by
+  decide
 
 end ActixNet.C04
